@@ -2,6 +2,7 @@
    Statements: model/KeepSpec.v; proofs: proofs/KeepProofs.v. *)
 From Aqua Require Import Base Json Air Trace Handler Values Scalars Lens Exec RunExec ExecCases KeepSpec.
 From Aqua Require Import KeepProofs.
+From Aqua Require SeqLocal NetLin NetLinCases NetLinProofs.
 Open Scope N_scope.
 Open Scope list_scope.
 
@@ -51,9 +52,31 @@ Example C04_oracle_rejects_mismatch :
   code_is_consistency_error 0 = false /\ code_is_consistency_error 10000 = false /\ code_is_consistency_error 30000 = false.
 Proof. vm_compute. repeat split; reflexivity. Qed.
 
+(* ---- history level, straight-line scripts on several peers (model/NetLin.v: the approximation invariant) ----
+   In EVERY honest history (the network of model/SeqLocal.v: start, every delivery order, duplication, re-delivery,
+   delayed answers) of a straight-line script, every run returns new data and its code is not in the generated
+   data-consistency error set: C04_full for this fragment (stated over SeqLocal's histories, for run1 and run2). *)
+Theorem C04_linear_histories : forall svc init ts ttl,
+    NetLin.lin_no_consistency_error svc init ts ttl RunExec.run1 /\
+    NetLin.lin_no_consistency_error svc init ts ttl ExecStreams.run2.
+Proof.
+  intros. split; apply NetLinProofs.no_consistency_error_gen; [apply NetLinProofs.run1_step | apply NetLinProofs.run2_step].
+Qed.
+
+(* non-vacuity: the ten runs of a concrete history (a caught service failure, a duplicate, a re-delivery) *)
+Example C04_linear_histories_example :
+  forallb (fun k =>
+    match NetLin.op_outcome NetLinCases.nlx_svc "A" 0 0 ExecStreams.run2 20 NetLinCases.nlx_script
+                            (NetLinCases.nlx_history k) (nth k NetLinCases.nlx_ops SeqLocal.OStart) with
+    | Some (OutNewData c _ _ _ _) => negb (code_is_consistency_error c)
+    | _ => false
+    end) (seq 0 10) = true.
+Proof. vm_compute. reflexivity. Qed.
+
 Print Assumptions C04_state_compat_call.
 Print Assumptions C04_state_compat_canon.
 Print Assumptions C04_state_compat.
 Print Assumptions C04_cid_eqb_decides.
 Print Assumptions C04_codes_tie.
 Print Assumptions C04_codes_distinct.
+Print Assumptions C04_linear_histories.
